@@ -17,7 +17,7 @@ RULE = ("Hypothesis: general graphs (1-4 classes, <=7 nodes IRI/bnode with 0..n 
         "printed figure below 100 %; distinct by SHA-1 of the case.")
 ASSUMPTIONS = ["CPython 3.12, Hypothesis 6.168", "vf/shexc.py reads the ShExC subset correctly (self-tested on the golden files)",
                "vf/refmodel.py encodes the counting semantics stated in the property"]
-BUDGET = {"quick": {"examples": 16000, "wall": 120}, "thorough": {"examples": 160000, "wall": 3000}}
+BUDGET = {"quick": {"examples": 16000, "wall": 120}, "thorough": {"examples": 500000, "wall": 5400}}
 FLOORS = {"nontrivial": 0.12, "multi-typed": 0.12, "bnode-instance": 0.12, "shape-ref": 0.15, "inverse": 0.06, "card>1-below-100": 0.09}
 OWN = ("NINST", "COUNT", "RATIO", "OVER100")
 KNOWN = ("C01-NONLIT", "C01-NONLIT-KLS", "C13-DEC0")
